@@ -196,6 +196,13 @@ func (h *Harness) exportsOf(r *ReqState) []*ExportState {
 	return out
 }
 
+// turnedAwayByShutdown: the call overlapped or followed the invocation of
+// Shutdown and was refused with an error without anything being queued.
+func (h *Harness) turnedAwayByShutdown(r *ReqState) bool {
+	return h.ShutdownInvoked && r.Returned && r.Err != nil && !r.Enqueued && !isCtxErr(r.Err) && !h.wrapsAnyFailure(r.Err) &&
+		(h.race || r.ReturnStep >= h.ShutdownInvokeStep) && !consumererror.IsPermanent(r.Err)
+}
+
 func (h *Harness) refused(r *ReqState) bool {
 	return len(h.sc.Cfg.MetadataKeys) > 0 && h.sc.Cfg.Limit > 0 && r.Returned && r.Err != nil && !r.Enqueued && !isCtxErr(r.Err) && consumererror.IsPermanent(r.Err) && !h.wrapsAnyFailure(r.Err)
 }
@@ -301,6 +308,16 @@ func (h *Harness) finalOracles() {
 			h.probe("request_split_over_batches")
 		}
 		if h.refused(r) {
+			continue
+		}
+		if h.turnedAwayByShutdown(r) {
+			h.probe("consume_refused_because_shutting_down")
+			for _, it := range r.Items {
+				if h.expCount[it.Vid] > 0 {
+					h.violate("C05", "no-invention", fmt.Sprintf("req#%d was refused (%v) while shutting down but its item %d was exported", r.Plan.ID, r.Err, it.Vid), nil)
+					break
+				}
+			}
 			continue
 		}
 		ctxEnded := r.CtxErrAtReturn != nil
@@ -433,7 +450,7 @@ func (h *Harness) finalOracles() {
 	// ---- C10
 	if len(cfg.MetadataKeys) > 0 {
 		for _, r := range h.reqs {
-			if h.race || !r.Returned || r.Err == nil || r.Enqueued || isCtxErr(r.Err) || h.wrapsAnyFailure(r.Err) {
+			if h.race || !r.Returned || r.Err == nil || r.Enqueued || isCtxErr(r.Err) || h.wrapsAnyFailure(r.Err) || h.turnedAwayByShutdown(r) {
 				continue
 			}
 			// the request was turned away
@@ -501,7 +518,7 @@ func (h *Harness) checkAdmission() {
 	var ops []porcupine.Operation
 	admittedCombos := map[string]bool{}
 	for _, r := range h.reqs {
-		if !r.Invoked || !r.Returned {
+		if !r.Invoked || !r.Returned || h.turnedAwayByShutdown(r) {
 			continue
 		}
 		ref := r.Err != nil && !r.Enqueued && !isCtxErr(r.Err) && !h.wrapsAnyFailure(r.Err)
